@@ -627,3 +627,182 @@ theorem Skeleton.readMeta_head_ok (s : Skeleton) (hwf : s.WF) (m0 : Meta) (ss : 
   exact readMeta_events m0 s.A s.B s.S s.bgl s.bgName ss (evInert_inert hwf.A) hwf.bg (evInert_inert hwf.B) hwf.S hss
 
 end Reamber.Osu
+
+namespace Reamber.Osu
+
+/-! ### assembly -/
+
+theorem filterMapE_append_none {α β} (f : α → Except Err (Option β)) (A B : List α) (h : ∀ a ∈ A, f a = .ok none) :
+    filterMapE f (A ++ B) = filterMapE f B := by
+  rw [filterMapE_append, filterMapE_none f A h]
+  cases filterMapE f B <;> rfl
+
+theorem filterMapE_cons_none {α β} (f : α → Except Err (Option β)) (a : α) (B : List α) (h : f a = .ok none) :
+    filterMapE f (a :: B) = filterMapE f B := by
+  rw [filterMapE, h]; cases filterMapE f B <;> rfl
+
+theorem filter_eq_self' (X : List Str) (f : Str → Bool) (h : ∀ l ∈ X, f l = true) : X.filter f = X :=
+  List.filter_eq_self.mpr h
+
+/-- the `[Events]` body as the by-the-book reading sees it -/
+theorem Skeleton.events_denote (s : Skeleton) (hwf : s.WF) :
+    let ev := (s.A.filter nb ++ kBackground :: s.bgl :: (s.B.filter nb ++ kSamples :: s.S.filter nb)).filter nc
+    filterMapE denoteSample ev = mapE readSample (s.S.filter (startsWith pSample)) ∧
+    denoteBackground ev = some s.bgName := by
+  intro ev
+  have c1 : nc kBackground = false := by decide +kernel
+  have c2 : nc kSamples = false := by decide +kernel
+  have c3 : nc s.bgl = true := by
+    obtain ⟨t, ht⟩ := bgOk_head _ _ hwf.bg
+    rw [ht]; rfl
+  have hev : ev = (s.A.filter nb).filter nc ++ s.bgl :: ((s.B.filter nb).filter nc ++ (s.S.filter nb).filter nc) := by
+    show List.filter nc _ = _
+    simp only [List.filter_append, List.filter_cons, c1, c2, c3, if_true, Bool.false_eq_true, if_false]
+  have hAs : ∀ X : List Str, (∀ l ∈ X, EvInert l) → ∀ l ∈ (X.filter nb).filter nc, denoteSample l = .ok none ∧
+      ∀ ty a f r, splitOn ',' l = ty :: a :: f :: r → ty ≠ ['0'] := by
+    intro X hX l hl
+    have hc : isComment l = false := by
+      have := (List.mem_filter.mp hl).2
+      simpa [nc] using this
+    exact (hX l (List.mem_of_mem_filter (List.mem_of_mem_filter hl))).2.2 hc
+  obtain ⟨sf1, sf2⟩ := sample_filters s.S hwf.S
+  constructor
+  · rw [hev, filterMapE_append_none _ _ _ (fun l hl => (hAs s.A hwf.A l hl).1),
+      filterMapE_cons_none _ _ _ (denoteSample_bg _ _ hwf.bg),
+      filterMapE_append_none _ _ _ (fun l hl => (hAs s.B hwf.B l hl).1), ← sf1]
+    exact filterMapE_denoteSample _ sf2
+  · rw [hev, denoteBackground_skip _ _ (fun l hl => (hAs s.A hwf.A l hl).2)]
+    exact denoteBackground_bg _ _ _ hwf.bg
+
+theorem not_header_ne (l : Str) (h : isHeader l = false) : l ≠ hTiming ∧ l ≠ hObjects := by
+  constructor <;> (intro e; rw [e] at h; revert h; decide +kernel)
+
+/-- **`read t = denote t` on the dialect — the whole file, text → chart.**  If the trimmed lines of a text form a
+well-formed skeleton and the by-the-book denotation (sections by header, `Key:Value` at the first colon, type bits,
+uninherited flag, column by search, first `0,…` event as background, `Sample,…` events) reads it as the chart `c` with
+a key count ≥ 1, then `OsuMap.read` — scanning for the first `[TimingPoints]` / `[HitObjects]`, running the key and
+marker loop over everything before, classifying lines by counting — returns exactly `c`. -/
+theorem read_eq_denote (s : Skeleton) (hwf : s.WF) (lines0 : List Str) (hl : lines0.map strip = s.lines) (c : Chart)
+    (hden : denote lines0 = .ok c) (hk : 1 ≤ pyTrunc c.md.circleSize) : read lines0 = .ok c := by
+  obtain ⟨bG, bE, bM, bD, bEv, bT, bO⟩ := s.bodies hwf
+  obtain ⟨evS, evB⟩ := s.events_denote hwf
+  -- what the denotation computes
+  unfold denote at hden
+  simp only [hl, s.sections_eq hwf, bG, bE, bM, bD, bEv, bT, bO] at hden
+  have hkv : denoteKv {} (s.G.filter nb ++ s.E.filter nb ++ s.M.filter nb ++ s.D.filter nb) =
+      denoteKv {} (((s.G ++ s.E) ++ s.M) ++ s.D) := by
+    rw [← List.filter_append, ← List.filter_append, ← List.filter_append, denoteKv_filter_nonblank]
+  have hTc : (s.T.filter nb).filter nc = s.T.filter nb := by
+    apply filter_eq_self'
+    intro l hl'
+    have hne : l ≠ [] := by simpa [nb] using (List.mem_filter.mp hl').2
+    rcases hwf.T l (List.mem_of_mem_filter hl') with h | h
+    · exact absurd h hne
+    · simp [nc, h.2.2]
+  have hOc : (s.O.filter nb).filter nc = s.O.filter nb := by
+    apply filter_eq_self'
+    intro l hl'
+    have hne : l ≠ [] := by simpa [nb] using (List.mem_filter.mp hl').2
+    rcases hwf.O l (List.mem_of_mem_filter hl') with h | h
+    · exact absurd h hne
+    · simp [nc, h.2.2]
+  rw [hkv, evS, evB, hTc, hOc] at hden
+  cases h0 : denoteKv {} (((s.G ++ s.E) ++ s.M) ++ s.D) with
+  | error e => rw [h0] at hden; simp at hden
+  | ok m0 =>
+    rw [h0] at hden
+    cases hss : mapE readSample (s.S.filter (startsWith pSample)) with
+    | error e => rw [hss] at hden; simp at hden
+    | ok ss =>
+      rw [hss] at hden
+      simp only [Option.getD_some] at hden
+      cases htp : filterMapE denoteTiming (s.T.filter nb) with
+      | error e => rw [htp] at hden; simp at hden
+      | ok tps =>
+        rw [htp] at hden
+        cases hob : filterMapE (denoteObj (pyTrunc m0.circleSize)) (s.O.filter nb) with
+        | error e => rw [hob] at hden; simp at hden
+        | ok objs =>
+          rw [hob] at hden
+          simp only [Except.ok.injEq] at hden
+          subst hden
+          -- what the reader computes
+          have hTwf : ∀ l ∈ s.T.filter nb, wfTimingLine l = true := by
+            intro l hl'
+            have hne : l ≠ [] := by simpa [nb] using (List.mem_filter.mp hl').2
+            rcases hwf.T l (List.mem_of_mem_filter hl') with h | h
+            · exact absurd h hne
+            · exact h.1
+          have hOwf : ∀ l ∈ s.O.filter nb, wfObjLine l = true := by
+            intro l hl'
+            have hne : l ≠ [] := by simpa [nb] using (List.mem_filter.mp hl').2
+            rcases hwf.O l (List.mem_of_mem_filter hl') with h | h
+            · exact absurd h hne
+            · exact h.1
+          obtain ⟨tb, ts⟩ := timing_section_eq_denote _ hTwf tps htp
+          obtain ⟨oh, od⟩ := objects_section_eq_denote (pyTrunc m0.circleSize) hk _ hOwf objs hob
+          have fT1 : (s.T.filter nb).filter isTimingPoint = s.T.filter isTimingPoint := by
+            rw [List.filter_filter]; congr 1; funext l
+            by_cases hl' : l = []
+            · subst hl'; rfl
+            · simp [nb, hl']
+          have fT2 : (s.T.filter nb).filter isSliderVelocity = s.T.filter isSliderVelocity := by
+            rw [List.filter_filter]; congr 1; funext l
+            by_cases hl' : l = []
+            · subst hl'; rfl
+            · simp [nb, hl']
+          have fO1 : (s.O.filter nb).filter isHit = s.O.filter isHit := by
+            rw [List.filter_filter]; congr 1; funext l
+            by_cases hl' : l = []
+            · subst hl'; rfl
+            · simp [nb, hl']
+          have fO2 : (s.O.filter nb).filter isHold = s.O.filter isHold := by
+            rw [List.filter_filter]; congr 1; funext l
+            by_cases hl' : l = []
+            · subst hl'; rfl
+            · simp [nb, hl']
+          rw [fT1] at tb; rw [fT2] at ts; rw [fO1] at oh; rw [fO2] at od
+          have hmeta := s.readMeta_head_ok hwf m0 ss h0 hss
+          -- no earlier occurrence of the two headers
+          have hHead : ∀ l ∈ s.head, l ≠ hTiming ∧ l ≠ hObjects := by
+            intro l hl'
+            have hbgl : isHeader s.bgl = false := by
+              obtain ⟨t, ht⟩ := bgOk_head _ _ hwf.bg
+              unfold isHeader; rw [ht]; rfl
+            unfold Skeleton.head Skeleton.events at hl'
+            simp only [List.mem_append, List.mem_cons] at hl'
+            have kvh : ∀ X : List Str, (∀ l ∈ X, KvOk l) → l ∈ X → l ≠ hTiming ∧ l ≠ hObjects :=
+              fun X hX hm => not_header_ne l (hX l hm).1
+            rcases hl' with h | rfl | h | h | rfl | h | rfl | h | rfl | h | rfl | rfl | h | rfl | h
+            · exact not_header_ne l (hwf.pre l h).2
+            · decide +kernel
+            · exact kvh _ hwf.G h
+            · cases hb : s.hasEditor
+              · rw [hb] at h; simp at h
+              · rw [hb] at h
+                simp only [if_true, List.mem_cons] at h
+                rcases h with rfl | h
+                · decide +kernel
+                · exact kvh _ hwf.E h
+            · decide +kernel
+            · exact kvh _ hwf.M h
+            · decide +kernel
+            · exact kvh _ hwf.D h
+            · decide +kernel
+            · exact not_header_ne l (hwf.A l h).2.1
+            · decide +kernel
+            · exact not_header_ne _ hbgl
+            · exact not_header_ne l (hwf.B l h).2.1
+            · decide +kernel
+            · rcases hwf.S l h with rfl | hs
+              · decide +kernel
+              · exact not_header_ne l (sampleOk_facts l hs).2.2.2
+          have hTno : hObjects ∉ s.T := by
+            intro hm
+            rcases hwf.T _ hm with h | h
+            · revert h; decide +kernel
+            · have := h.2.1; revert this; decide +kernel
+          exact read_sections lines0 s.head s.T s.O hl (fun hm => (hHead _ hm).1 rfl) (fun hm => (hHead _ hm).2 rfl)
+            hTno _ _ _ _ _ hmeta ts tb oh od
+
+end Reamber.Osu
